@@ -109,3 +109,19 @@ Proof.
              [destruct (is_processed ev') eqn:EP|]; cbn -[proc_finish proc_wait put_proc resume_loop];
              rewrite ?ER, ?E', ?EP; reflexivity).
 Qed.
+
+(* ---- non-vacuity witness: a process whose generator returns at once is resumed by its Initialize event (event 1) ------ *)
+Definition exr_prog : prog := mkProg unit (fun _ => tt) (fun _ _ => FRet (VInt 4)).
+Definition exr_state : state := fst (call_spawn [exr_prog] 0%nat VNone (init_state 0)).
+Lemma ex_resume :
+  (exists ev pr o, get_event 1%nat (set_active (Some 0%nat) exr_state) = Some ev /\
+                   get_proc 0%nat (set_active (Some 0%nat) exr_state) = Some pr /\ out ev = Some o) /\
+  resume_fx_run 0 [exr_prog] 0%nat 1%nat exr_state (resume_gen [exr_prog] 0%nat 1%nat exr_state) =
+    Some (resume_proc 1 [exr_prog] 0%nat 1%nat exr_state) /\
+  resume_gen [exr_prog] 0%nat 1%nat exr_state =
+    [FxSetActive; FxSend; FxEventNone; FxSetOk true; FxSetValueReturn; FxScheduleSelf; FxSetTarget; FxClearActive] /\
+  option_map out (get_event 0%nat (fst (resume_proc 1 [exr_prog] 0%nat 1%nat exr_state))) = Some (Some (Ok (VInt 4))).
+Proof.
+  split; [do 3 eexists; split; [reflexivity|]; split; reflexivity|].
+  split; [eapply bridge_resume; reflexivity|]. split; vm_compute; reflexivity.
+Qed.
